@@ -29,6 +29,9 @@ type run struct {
 	ids   map[*ssh.Permissions]int
 }
 
+// uhex: the user name a callback sees, hex-encoded as on the op line
+func uhex(conn ssh.ConnMetadata) string { return hx.Hex([]byte(conn.User())) }
+
 func (x *run) ev(format string, a ...any) { x.evs = append(x.evs, fmt.Sprintf(format, a...)) }
 
 func (x *run) permID(p *ssh.Permissions) string {
@@ -56,19 +59,19 @@ func (x *run) callbacks(bits string, gen int) ssh.ServerAuthCallbacks {
 	}
 	if bits[0] == '1' {
 		c.PasswordCallback = func(conn ssh.ConnMetadata, pw []byte) (*ssh.Permissions, error) {
-			x.ev("cb.pw(%d,%s,%s)", gen, conn.User(), pw)
+			x.ev("cb.pw(%d,%s,%s)", gen, uhex(conn), pw)
 			return x.outcome(x.cur().Cb)
 		}
 	}
 	if bits[1] == '1' {
 		c.PublicKeyCallback = func(conn ssh.ConnMetadata, key ssh.PublicKey) (*ssh.Permissions, error) {
-			x.ev("cb.pk(%d,%s,%s)", gen, conn.User(), KeyIDOf(key.Marshal()))
+			x.ev("cb.pk(%d,%s,%s)", gen, uhex(conn), KeyIDOf(key.Marshal()))
 			return x.outcome(x.cur().Cb)
 		}
 	}
 	if bits[2] == '1' {
 		c.KeyboardInteractiveCallback = func(conn ssh.ConnMetadata, ch ssh.KeyboardInteractiveChallenge) (*ssh.Permissions, error) {
-			x.ev("cb.kbd(%d,%s)", gen, conn.User())
+			x.ev("cb.kbd(%d,%s)", gen, uhex(conn))
 			for _, q := range x.cur().KbdRounds {
 				qs := make([]string, q)
 				for i := range qs {
@@ -88,7 +91,7 @@ func (x *run) callbacks(bits string, gen int) ssh.ServerAuthCallbacks {
 				if srcName != gssSrcName {
 					x.ev("?src")
 				}
-				x.ev("cb.gss(%d,%s)", gen, conn.User())
+				x.ev("cb.gss(%d,%s)", gen, uhex(conn))
 				return x.outcome(x.cur().Cb)
 			},
 		}
@@ -300,7 +303,7 @@ func Exec(line string) string {
 	cfg := &ssh.ServerConfig{MaxAuthTries: o.Int("mt"), NoClientAuth: o.Str("nca") == "1"}
 	if o.Str("ncacb") == "1" {
 		cfg.NoClientAuthCallback = func(conn ssh.ConnMetadata) (*ssh.Permissions, error) {
-			x.ev("cb.none(%s)", conn.User())
+			x.ev("cb.none(%s)", uhex(conn))
 			return x.outcome(x.cur().Cb)
 		}
 	}
@@ -309,15 +312,15 @@ func Exec(line string) string {
 	cfg.GSSAPIWithMICConfig = cbs.GSSAPIWithMICConfig
 	if o.Str("vpk") == "1" {
 		cfg.VerifiedPublicKeyCallback = func(conn ssh.ConnMetadata, key ssh.PublicKey, perms *ssh.Permissions, sigAlgo string) (*ssh.Permissions, error) {
-			x.ev("cb.vpk(%s,%s,%s,%s)", conn.User(), KeyIDOf(key.Marshal()), x.permID(perms), sigAlgo)
+			x.ev("cb.vpk(%s,%s,%s,%s)", uhex(conn), KeyIDOf(key.Marshal()), x.permID(perms), sigAlgo)
 			return x.outcome(x.cur().Vcb)
 		}
 	}
 	switch o.Str("ban") {
 	case "e":
-		cfg.BannerCallback = func(conn ssh.ConnMetadata) string { x.ev("cb.ban(%s)", conn.User()); return "" }
+		cfg.BannerCallback = func(conn ssh.ConnMetadata) string { x.ev("cb.ban(%s)", uhex(conn)); return "" }
 	case "m":
-		cfg.BannerCallback = func(conn ssh.ConnMetadata) string { x.ev("cb.ban(%s)", conn.User()); return "hello" }
+		cfg.BannerCallback = func(conn ssh.ConnMetadata) string { x.ev("cb.ban(%s)", uhex(conn)); return "hello" }
 	}
 	cfg.PublicKeyAuthAlgorithms = o.List("algs")
 	cfg.AuthLogCallback = func(conn ssh.ConnMetadata, method string, err error) {
